@@ -186,7 +186,7 @@ def run(facts, chk, tier, only=None):
             a0, a1 = show(ebc.operand(t.args[0])), show(ebc.operand(t.args[1]))
             desc = ('b' in a0 and 'a' in a1, a0, a1)
         return out, desc
-    r = chk.guard('C18.gt', 'C18.gt:alleles', alleles)
+    r = chk.guard_soft('C18.gt', 'C18.gt:alleles', alleles, twins=['C18.e2e:indels'])      # allele / carrier-set pairing is decided end to end on planted indels
     if r is not None:
         out, desc = r
         want = {'ref_allele': (0, 0), 'ref_bitset': (0, 2), 'alt_allele': (1, 0), 'alt_bitset': (1, 2)}
